@@ -46,9 +46,20 @@ def main(argv):
             bad += 1
             shutil.rmtree(d, ignore_errors=True)
             continue
+        s = s.replace(m["from"], m["to"])
+        ok_also = True
+        for extra in m.get("also", []):  # further replacements belonging to the same mutant (e.g. a consistent swap on both sides)
+            if s.count(extra["from"]) != extra.get("count", 1):
+                ok_also = False
+            s = s.replace(extra["from"], extra["to"])
+        if not ok_also:
+            print("MUTANT %s/%s: an `also` pattern does not occur the expected number of times -- NOT APPLIED" % (unit, m["name"]))
+            bad += 1
+            shutil.rmtree(d, ignore_errors=True)
+            continue
         with open(p, "w") as f:
-            f.write(s.replace(m["from"], m["to"]))
-        r = kani.run_kani_unit(HERE, d, unit, m.get("tier", tier))
+            f.write(s)
+        r = kani.run_kani_unit(HERE, d, unit, m.get("tier", tier), only_harnesses=m.get("harnesses"))
         caught = r["status"] == "violation"
         cex = None
         for fl in r["failures"]:
